@@ -644,16 +644,16 @@ func alterations(s *seed, t *token, rnd *rand.Rand, n int, add func(class, name,
 				c = b64alphabet[(strings.IndexByte(b64alphabet, c)+1)%64]
 			}
 			mutated = seg[:p] + string(c) + seg[p+1:]
-			what = "b64-char-replaced"
+			what = fmt.Sprintf("b64-char-replaced@%d=%c", p, c)
 		case 1: // flip one bit of the decoded bytes and re-encode canonically
 			raw, err := b64.DecodeString(seg)
 			if err != nil || len(raw) == 0 {
 				continue
 			}
-			p := rnd.Intn(len(raw))
-			raw[p] ^= 1 << uint(rnd.Intn(8))
+			p, bit := rnd.Intn(len(raw)), rnd.Intn(8)
+			raw[p] ^= 1 << uint(bit)
 			mutated = b64.EncodeToString(raw)
-			what = "decoded-bit-flipped"
+			what = fmt.Sprintf("decoded-bit-flipped@%d.%d", p, bit)
 		default: // semantically neutral JSON change (inserted space) re-encoded: other bytes, same meaning
 			raw, err := b64.DecodeString(seg)
 			if err != nil || len(raw) < 2 || raw[0] != '{' {
@@ -671,7 +671,7 @@ func alterations(s *seed, t *token, rnd *rand.Rand, n int, add func(class, name,
 			p := idx[rnd.Intn(len(idx))]
 			nr := append(append(append([]byte{}, raw[:p+1]...), ' '), raw[p+1:]...)
 			mutated = b64.EncodeToString(nr)
-			what = "json-space-inserted"
+			what = fmt.Sprintf("json-space-inserted@%d", p)
 		}
 		v := vHostile
 		class := "protected-byte-altered"
